@@ -20,7 +20,7 @@ CHECKS = {
     "C02": ("exploration", "Hypothesis-generated declarations x consistent value trees; pack() vs independent reference encoder, re-parse round trip",
             "Value trees are drawn to satisfy the declaration and built by constructor and by attribute assignment; pack() must equal the reference encoding byte for byte, unpack(pack()) must give back equal values and the reference end offset, assert_consistency() must be True.",
             "Trusts bv/ir.py encoder/parser; consistency of a tree is decided by the reference model; regex delimiters not kept are excluded.", "DESIGN.md section 5 C02"),
-    "C04": ("exploration", "Hypothesis-generated declarations stratified over all integer widths / bit-group sizes x every truncation point of valid encodings, corruptions, random strings; oracle = reference parser with explicit bounds checks",
+    "C04": ("exploration", "Hypothesis-generated declarations stratified over all integer widths / bit-group sizes x every truncation point of valid encodings, corruptions, random strings; plus atheris coverage-guided byte fuzzing over a fixed declaration catalogue; oracle = reference parser with explicit bounds checks",
             "For each generated declaration and valid encoding every truncation point (<=64 per encoding) is fed to unpack; any accepted input must also be accepted by the bounds-checking reference parser with equal values; silent=True must agree with raising.",
             "Trusts bv/ir.py; sampled declarations; truncation points exhaustive per encoding up to the cap.", "DESIGN.md section 5 C04"),
     "C08": ("exploration", "Hypothesis-generated declarations weighted to repeated/optional/referenced fields x valid, truncated, corrupted, random inputs; two-directional differential (values, end offset, accept/reject) against the reference parser",
